@@ -1,6 +1,6 @@
 """Which units decide which property."""
 from props import KaniUnit
-from tv_units import AllocTVUnit, FlattenTVUnit, SimplifyTVUnit
+from tv_units import AllocTVUnit, FlattenTVUnit, SimplifyTVUnit, BytecodeTVUnit
 
 LIBM_STUBS = [
     "f32::sin, f32::cos -> functional, NaN/inf->NaN, range [-1,1] (no monotonicity)",
@@ -24,6 +24,10 @@ INTERVAL_FNS = ["fidget_core::types::Interval::{new,abs,square,sin,cos,tan,asin,
                 "<Interval as Add/Sub/Mul/Mul<f32>/Div/Neg/From<f32>>"]
 
 PROPS = {
+    "C15": {
+        "level": "translation_validation",
+        "units": [BytecodeTVUnit()],
+    },
     "C04": {
         "level": "translation_validation",
         "units": [SimplifyTVUnit()],
